@@ -1,6 +1,8 @@
 """C10 — PSBT codec (global / input / output maps) and the create-update-sign-combine-finalise workflow."""
 import base64
 import contextlib
+import hashlib
+import hmac
 import io
 import itertools
 import os
@@ -8,7 +10,7 @@ import re
 from io import BytesIO
 
 import buidl.tx as btx
-from buidl.ecc import N as _N, PrivateKey, S256Point
+from buidl.ecc import G, N as _N, PrivateKey, S256Point
 from buidl.hd import HDPrivateKey, HDPublicKey
 from buidl.helper import encode_varint, encode_varstr, hash160, parse_binary_path, read_varint, read_varstr
 from buidl.psbt import PSBT, NamedHDPublicKey, NamedPublicKey, PSBTIn, PSBTOut, serialize_binary_path
@@ -33,7 +35,15 @@ RULE = ("Wallets: single-key P2PKH / P2WPKH / P2SH-P2WPKH and m-of-n P2SH / P2WS
         "product scriptPubKey x UTXO form x RedeemScript x WitnessScript x derivations incl. constructed hash "
         "coincidences; typed entries duplicated / re-keyed inside valid maps; global xpub shapes and ancestry, "
         "derivation networks spread over xpubs, inputs and outputs; combine field by field; compact-size boundaries "
-        "0xfc/0xfd/0xffff/0x10000 for lengths and map counts; PSBTs read from the middle of a stream.")
+        "0xfc/0xfd/0xffff/0x10000 for lengths and map counts; PSBTs read from the middle of a stream.  Entry points next "
+        "to the main path: NamedHDPublicKey.from_hd_priv / bip44_lookup / pubkey_lookup / redeem_script_lookup (default "
+        "and explicit limits) feeding update() with its optional arguments left out, PSBT.sign(hd_priv) with different "
+        "keys per input and two keys of one root in one input, replace_root_xfps / remove_global_xpubs against a "
+        "byte-level reference, parse / parse_base64 with the network given, constructors with all optional arguments "
+        "left out edited in place next to a second object, two extractions from one PSBT; empty input / output lists, "
+        "both UTXO forms in one map, global xpubs colliding after version normalisation, depth-0 xpubs with parent "
+        "data, all-zero / all-ff fingerprints, indices and chain codes, declared lengths the parser does not need and "
+        "over-long compact sizes.")
 TRUSTED = ["hashlib / hmac (sha256, ripemd160, sha512) — hash functions are universally quantified in the theorems",
            "oracles of the model, served by the implementation's own Tx methods at run time: Tx.sig_hash_legacy, "
            "Tx.sig_hash_bip143 (C05) and Tx.verify_input (C06/C07); ECDSA verification, SEC/DER parsing and "
@@ -2080,10 +2090,20 @@ def p_extract_invalid(kind_i, m, n, where):
             p.finalize()
         except Exception as e:  # noqa
             return f"{kind} {m}-of-{n}: finalize() of an input with enough signatures raises {type(e).__name__}: {e}"
+        fb = p.serialize()
         try:
             t = p.final_tx()
         except RuntimeError:
-            return None
+            # the refused extraction left the PSBT alone: same bytes, they load, a second attempt is refused again
+            if p.serialize() != fb or any(i.script_sig.commands or i.witness.items for i in p.tx_obj.tx_ins):
+                return f"{kind} {m}-of-{n}: the refused final_tx() changed the PSBT"
+            try:
+                reparse(fb).final_tx()
+            except RuntimeError:
+                return None
+            except Exception:  # noqa
+                return None
+            return f"{kind} {m}-of-{n}: the bytes of the PSBT whose extraction was refused extract after a reload"
         except Exception as e:  # noqa
             return f"{kind} {m}-of-{n}: final_tx() of an invalid finalised PSBT fails with {type(e).__name__}, not RuntimeError"
         return (f"{kind} {m}-of-{n}: final_tx() returned a transaction although the signature of key {j} does not "
@@ -2333,6 +2353,545 @@ def boundary_cases(ctx):
         yield parse_case(b[:-1])
 
 
+# ---------------------------------------------------------------- entry points besides the main path, default arguments,
+# per-element attributes, state shared between objects (audit of the blind spots of seeded-change round 3)
+
+H32 = 0x80000000
+_le4 = lambda x: x.to_bytes(4, "little")  # noqa: E731
+
+
+def ckd_pub(sec, chain, index):
+    """BIP32 public child derivation with the standard library's hmac; only the point addition is the library's"""
+    mac = hmac.new(chain, sec + index.to_bytes(4, "big"), hashlib.sha512).digest()
+    return (int.from_bytes(mac[:32], "big") * G + S256Point.parse(sec)).sec(), mac[32:]
+
+
+def ckd_priv_hardened(secret, chain, index):
+    mac = hmac.new(chain, b"\x00" + secret.to_bytes(32, "big") + index.to_bytes(4, "big"), hashlib.sha512).digest()
+    return (int.from_bytes(mac[:32], "big") + secret) % _N, mac[32:]
+
+
+class RefAccount:
+    """reference of the BIP44 account m/44'/0'/0' under a root (secret, chain code): keys and raw paths of the
+    children c/i, computed without buidl.hd and without NamedHDPublicKey"""
+
+    def __init__(self, secret, chain):
+        self.root = HDPrivateKey(PrivateKey(secret), chain)
+        self.fp = hash160((secret * G).sec())[:4]
+        k, c = secret, chain
+        for idx in (H32 + 44, H32, H32):
+            k, c = ckd_priv_hardened(k, c, idx)
+        self.sec, self.chain = (k * G).sec(), c
+        self.prefix = self.fp + _le4(H32 + 44) + _le4(H32) + _le4(H32)
+        self._kids = {}
+
+    def kid(self, c, i):
+        if (c, i) not in self._kids:
+            s1, c1 = ckd_pub(self.sec, self.chain, c)
+            self._kids[(c, i)] = (ckd_pub(s1, c1, i)[0], self.prefix + _le4(c) + _le4(i))
+        return self._kids[(c, i)]
+
+
+_REF_ACCT = {}
+
+
+def ref_accounts():
+    if not _REF_ACCT:
+        _REF_ACCT["a"], _REF_ACCT["b"] = RefAccount(0xBEEF0001, b"\x5a" * 32), RefAccount(0xBEEF0002, b"\x5b" * 32)
+    return _REF_ACCT["a"], _REF_ACCT["b"]
+
+
+def check_lookup(name, lk, want):
+    """lk: a pubkey lookup of the library; want: list of (sec, raw_path)"""
+    keys = set()
+    for sec, path in want:
+        keys |= {sec, hash160(sec)}
+    if set(lk) != keys:
+        return f"{name}: {len(lk)} keys, {len(set(lk) - keys)} unexpected, {len(keys - set(lk))} missing"
+    for sec, path in want:
+        for k in (sec, hash160(sec)):
+            v = lk[k]
+            if v.sec() != sec or v.point.sec() != sec:
+                return f"{name}: the entry for {k.hex()[:16]} is another key"
+            if v.point.raw_path != path or v.raw_path != path:
+                return f"{name}: the entry for {k.hex()[:16]} names the path {v.point.raw_path.hex()}, not {path.hex()}"
+    return None
+
+
+def p_lookup_producers(flags):
+    """The Updater fed by the library's OWN lookup producers (NamedHDPublicKey.from_hd_priv / bip44_lookup /
+    pubkey_lookup / redeem_script_lookup, with default and explicit limits) and PSBT.update with its optional
+    arguments left out; PSBT.sign(hd_priv) on a PSBT whose inputs use DIFFERENT keys of one root (p2pkh at 0/2,
+    p2sh-p2wpkh at 1/1) and a 2-of-3 p2wsh input in which that root owns two of the three keys (0/1 and 1/0) and a
+    second root one: every input must end up with signatures of exactly its own keys over its own digest, and
+    extraction gives the first two signatures in script order.  The reference (keys, paths, maps) is derived with
+    hmac/sha512 from the root secrets.  flags bit 0: the PSBT goes through bytes between the roles."""
+    a, b = ref_accounts()
+    with contextlib.redirect_stdout(io.StringIO()):
+        try:
+            acct = NamedHDPublicKey.from_hd_priv(a.root, "m/44'/0'/0'")
+            acct2 = NamedHDPublicKey.from_hd_priv(b.root, "m/44h/0H/0'")
+            lk = acct.bip44_lookup(max_external=2, max_internal=1)
+            lk2 = acct2.bip44_lookup(0, 0)
+            lk_default = acct.child(0).pubkey_lookup()
+            rl = acct.redeem_script_lookup(max_external=1, max_internal=2)
+            rl_kw = acct.redeem_script_lookup(max_internal=1, max_external=0)
+        except Exception as e:  # noqa
+            return f"lookup producers raise {type(e).__name__}: {str(e)[:100]}"
+        for h, r_ in ((acct, a), (acct2, b)):
+            if h.sec() != r_.sec or h.raw_path != r_.prefix or h.point.raw_path != r_.prefix:
+                return "from_hd_priv: account key or its raw path is not m/44'/0'/0' of the root"
+        r = check_lookup("bip44_lookup(max_external=2, max_internal=1)", lk,
+                         [a.kid(0, i) for i in range(3)] + [a.kid(1, i) for i in range(2)]) or \
+            check_lookup("bip44_lookup(0, 0)", lk2, [b.kid(0, 0), b.kid(1, 0)]) or \
+            check_lookup("pubkey_lookup() with the default limit", lk_default, [a.kid(0, i) for i in range(10)])
+        if r:
+            return r
+        for name, got, want in (("redeem_script_lookup(max_external=1, max_internal=2)", rl,
+                                 [a.kid(0, 0), a.kid(0, 1), a.kid(1, 0), a.kid(1, 1), a.kid(1, 2)]),
+                                ("redeem_script_lookup(max_internal=1, max_external=0)", rl_kw,
+                                 [a.kid(0, 0), a.kid(1, 0), a.kid(1, 1)])):
+            exp = {hash160(b"\x00\x14" + hash160(s)): b"\x00\x14" + hash160(s) for s, _ in want}
+            if set(got) != set(exp) or any(got[k].raw_serialize() != v for k, v in exp.items()):
+                return f"{name} is not the set of p2sh-p2wpkh RedeemScripts of the children"
+        # ---- one PSBT over these keys
+        (sa, pa), (sb, pb) = a.kid(0, 2), a.kid(1, 1)
+        c_keys = [a.kid(0, 1), b.kid(0, 0), a.kid(1, 0)]
+        wsc = [op_n(2)] + [s for s, _ in c_keys] + [op_n(3), 174]
+        ws_raw = bytes([0x52]) + b"".join(b"\x21" + s for s, _ in c_keys) + bytes([0x53, 0xAE])
+        rs_raw = b"\x00\x14" + hash160(sb)
+        spks = [P2PKHScriptPubKey(hash160(sa)), P2SHScriptPubKey(hash160(rs_raw)),
+                P2WSHScriptPubKey(hashlib.sha256(ws_raw).digest())]
+        fundings = [funding_tx(90 + i, i, spk, 50000 + 777 * i) for i, spk in enumerate(spks)]
+        (sch, pch) = a.kid(1, 0)
+        tx = Tx(2, [TxIn(f.hash(), 1) for f in fundings],
+                [TxOut(100000, P2PKHScriptPubKey(hash160(sch))), TxOut(40000, P2WPKHScriptPubKey(b"\x77" * 20))], 0)
+        tx.network = "mainnet"
+        tl = {f.hash(): f for f in fundings}
+        pk = {**lk, **lk2}
+        wl = {hashlib.sha256(ws_raw).digest(): WitnessScript(list(wsc))}
+        blank_i, blank_o = list(BLANK_IN), list(BLANK_OUT)
+        out_named = [[], [], [[sch, pch]], []]
+        exp1 = [un_tx(tx),
+                [[[un_tx(fundings[0])], [], [], [], [], [], [[sa, pa]], [], [], []], blank_i,
+                 [[], [un_txout(fundings[2].tx_outs[1])], [], [], [], [], [], [], [], []]],
+                [out_named, blank_o], [], []]
+        exp2 = [un_tx(tx),
+                [exp1[1][0],
+                 [[], [un_txout(fundings[1].tx_outs[1])], [], [], [[[0, hash160(sb)], []]], [], [[sb, pb]], [], [], []],
+                 [[], [un_txout(fundings[2].tx_outs[1])], [], [], [], [[list(wsc), []]],
+                  sorted([s, p_] for s, p_ in c_keys), [], [], []]],
+                [out_named, blank_o], [], []]
+        try:
+            p = PSBT.create(tx)
+            p.update(tl, pk)                      # redeem_lookup / witness_lookup left out
+            d = diff_psbt(un_psbt(p), exp1)
+            if d:
+                return f"update(tx_lookup, pubkey_lookup) with the script lookups left out: {d}"
+            if flags & 1:
+                p = reparse(p.serialize())
+            p.update(tx_lookup=tl, pubkey_lookup=pk, witness_lookup=wl, redeem_lookup=rl)
+        except Exception as e:  # noqa
+            return f"create / update with the library's lookups raises {type(e).__name__}: {str(e)[:100]}"
+        d = diff_psbt(un_psbt(p), exp2)
+        if d:
+            return f"update() with the library's lookups differs from the reference: {d}"
+        base = p.serialize()
+        if un_psbt(PSBT.create(mk_tx(un_tx(tx)))) != [un_tx(tx), [blank_i] * 3, [blank_o] * 2, [], []]:
+            return "PSBT.create(tx) after an update with lookups is not the bare PSBT (default lookups not empty)"
+        # ---- PSBT.sign(root): keys at different paths in different inputs, two keys of one root in one input
+        own = [[sa], [sb], [c_keys[0][0], c_keys[2][0]]]
+        if flags & 1:
+            p = reparse(base)
+        if not p.sign(a.root):
+            return "PSBT.sign(root) found nothing to sign"
+        for i, pin in enumerate(p.psbt_ins):
+            if sorted(pin.sigs) != sorted(own[i]):
+                return (f"PSBT.sign(root): input {i} holds signatures of {len(pin.sigs)} key(s) "
+                        f"{[k.hex()[:10] for k in sorted(pin.sigs)]}, expected {[k.hex()[:10] for k in sorted(own[i])]}")
+        one = p.serialize()
+        try:
+            q = reparse(one)                      # every partial signature is verified against its input's digest
+        except Exception as e:  # noqa
+            return f"the PSBT signed by PSBT.sign(root) does not load: {type(e).__name__}: {str(e)[:100]}"
+        sig = {k: v for pin in q.psbt_ins for k, v in pin.sigs.items()}
+        try:
+            _, txb1, t1 = finalise_bytes(one)
+        except Exception as e:  # noqa
+            return f"finalize/final_tx after PSBT.sign(root) (2 of 3 keys of the p2wsh input) fails: {type(e).__name__}: {str(e)[:100]}"
+        if list(t1.tx_ins[2].witness.items) != [b"", sig[c_keys[0][0]], sig[c_keys[2][0]], ws_raw]:
+            return "final witness of the p2wsh input is not [empty, signature of key 0, signature of key 2, script]"
+        if list(t1.tx_ins[1].witness.items) != [sig[sb], sb] or t1.tx_ins[0].script_sig.commands != [sig[sa], sa]:
+            return "final scriptSig / witness of the single-key inputs are not [signature, key] of the input's own key"
+        # the second root signs as well (its PSBT taken from the unsigned one), combined in both orders
+        p2 = reparse(base)
+        if not p2.sign(b.root):
+            return "PSBT.sign(second root) found nothing to sign"
+        if [sorted(pin.sigs) for pin in p2.psbt_ins] != [[], [], [c_keys[1][0]]]:
+            return "PSBT.sign(second root) did not sign exactly its one key in the p2wsh input"
+        two = p2.serialize()
+        both = combine_bytes(one, [two])
+        if combine_bytes(two, [one]) != both or combine_bytes(base, [two, one]) != both:
+            return "the combined PSBT of the two roots depends on the order of combining"
+        s1 = reparse(both).psbt_ins[2].sigs[c_keys[1][0]]
+        try:
+            _, txb2, t2 = finalise_bytes(both)
+        except Exception as e:  # noqa
+            return f"finalize/final_tx with both roots fails: {type(e).__name__}: {str(e)[:100]}"
+        if list(t2.tx_ins[2].witness.items) != [b"", sig[c_keys[0][0]], s1, ws_raw]:
+            return "with all three signatures the final witness does not hold the first two in script order"
+        if not t1.verify() or not t2.verify():
+            return "final transaction does not verify"
+        return p_reserialize_strict(both)
+
+
+def rewrite_maps(b, f_global=None, f_in=None, f_out=None):
+    """byte-level editing of a valid PSBT: each f maps one (key, value) to a list of entries"""
+    maps = split_maps(b)
+    nin = len(Tx.parse(BytesIO(dict(maps[0])[b"\x00"]), network="mainnet").tx_ins)
+    out = []
+    for mi, m in enumerate(maps):
+        f = f_global if mi == 0 else f_in if mi <= nin else f_out
+        out.append([e for kv in m for e in (f(*kv) if f else [kv])])
+    return join_maps(out)
+
+
+def p_xfp_helpers(n_inputs, flags):
+    """PSBT.replace_root_xfps and PSBT.remove_global_xpubs against a byte-level reference: in every input and
+    output map exactly the derivation entries whose fingerprint is named get the new fingerprint (all-zero, all-ff,
+    the other cosigner's), the global xpubs and everything else stay; an unknown fingerprint is refused and changes
+    nothing; the PSBT loads again, the blinded root no longer signs, the other one does; remove_global_xpubs
+    returns (and leaves) the PSBT without global xpub entries.  PSBTs loaded earlier from the same bytes are not
+    affected.  flags bit 0: unknown entries."""
+    w = Wallet("p2wsh", 2, 2, first_key=6, hd=True)
+    fps = [r_.fingerprint() for r_ in w.roots]
+    with contextlib.redirect_stdout(io.StringIO()):
+        b = build_psbt(w, n_inputs, salt=33, extras=bool(flags & 1)).serialize()
+        witness_of_before = reparse(b)
+
+        def ref(mapping):
+            def f(k, v):
+                if len(k) == 34 and v[:4] in mapping:
+                    return [(k, mapping[v[:4]] + v[4:])]
+                return [(k, v)]
+            return rewrite_maps(b, None, lambda k, v: f(k, v) if k[:1] == b"\x06" else [(k, v)],
+                                lambda k, v: f(k, v) if k[:1] == b"\x02" else [(k, v)])
+        for mapping in ({fps[0]: b"\x00" * 4}, {fps[1]: b"\xff" * 4}, {fps[0]: b"\xff" * 4, fps[1]: b"\x00" * 4},
+                        {fps[0]: fps[0][::-1]}, {fps[1]: fps[1]}):
+            q = reparse(b)
+            try:
+                q.replace_root_xfps({k.hex(): v.hex() for k, v in mapping.items()})
+            except Exception as e:  # noqa
+                return f"replace_root_xfps({ {k.hex(): v.hex() for k, v in mapping.items()} }) raises {type(e).__name__}: {str(e)[:80]}"
+            got, want = q.serialize(), ref(mapping)
+            if got != want:
+                return (f"replace_root_xfps({ {k.hex(): v.hex() for k, v in mapping.items()} }): the PSBT is not the "
+                        f"original with exactly the named fingerprints replaced in the input and output derivations")
+            if want != b and got == b:
+                return "harness: reference did not change anything"
+            r = p_reserialize_strict(got)
+            if r:
+                return "after replace_root_xfps: " + r
+        q = reparse(b)
+        for bad in ({"deadbeef": "00000000"}, {"00000000": "11111111"}):
+            try:
+                q.replace_root_xfps(bad)
+            except ValueError:
+                if q.serialize() != b:
+                    return "a refused replace_root_xfps changed the PSBT"
+                continue
+            except Exception as e:  # noqa
+                return f"replace_root_xfps with an unknown fingerprint fails with {type(e).__name__}, not ValueError"
+            return "replace_root_xfps accepted a fingerprint that is not in the PSBT"
+        q.replace_root_xfps({fps[0].hex(): "00000000"})
+        blinded = q.serialize()
+        for who, want in ((0, False), (1, True)):
+            s = reparse(blinded)
+            if bool(s.sign(w.roots[who])) != want:
+                return (f"after blinding the fingerprint of root 0, PSBT.sign(root {who}) "
+                        + ("found nothing to sign" if want else "still signs"))
+            if want:
+                sigs = [sorted(pin.sigs) for pin in s.psbt_ins]
+                if sigs != [[w.secs[1]]] * n_inputs:
+                    return "after blinding root 0, root 1 did not sign exactly its own key in every input"
+                try:
+                    reparse(s.serialize())
+                except Exception as e:  # noqa
+                    return f"the blinded PSBT signed by root 1 does not load: {type(e).__name__}: {str(e)[:80]}"
+        # remove_global_xpubs on the blinded object and on a fresh one
+        for obj, src in ((q, blinded), (reparse(b), b)):
+            want = rewrite_maps(src, lambda k, v: [] if k[:1] == b"\x01" else [(k, v)])
+            if want == src:
+                return "harness: no global xpub in the PSBT"
+            t64 = obj.remove_global_xpubs()
+            if t64 != base64.b64encode(want).decode("ascii"):
+                return "remove_global_xpubs() does not return the base64 text of the PSBT without its global xpub entries"
+            if obj.serialize() != want or obj.hd_pubs:
+                return "remove_global_xpubs() did not leave the PSBT without global xpubs"
+            r = p_reserialize_strict(want)
+            if r:
+                return "after remove_global_xpubs: " + r
+        if witness_of_before.serialize() != b:
+            return "a PSBT loaded earlier from the same bytes changed while another one was edited"
+    return None
+
+
+def p_default_objects(kind_i):
+    """Objects made with their optional arguments LEFT OUT (PSBTIn(tx_in), PSBTOut(tx_out), PSBT(tx, ins, outs),
+    PSBT.create(tx)), then edited in place: a second object made the same way — before or after the edits — stays
+    blank.  Extraction twice from one finalised PSBT with a legacy and a segwit input: editing the first extracted
+    transaction (witness of the legacy input, scriptSig, outputs) changes neither the second one nor the PSBT."""
+    w = own_wallets()[KINDS[kind_i]]
+    f = funding_tx(70 + kind_i, 0, w.spk)
+    sec = w.secs[0]
+    npub = w.named[0].point
+    with contextlib.redirect_stdout(io.StringIO()):
+        mk_ti = lambda i: TxIn(f.hash(), i)  # noqa: E731
+        mk_to = lambda: TxOut(100, P2TRScriptPubKey(b"\x45" * 32))  # noqa: E731
+
+        def edit_in(x):
+            x.sigs[sec] = FAKE_SIG
+            x.named_pubs[sec] = npub
+            x.extra_map[b"\x0f\x01"] = b"in"
+
+        def edit_out(x):
+            x.named_pubs[sec] = npub
+            x.extra_map[b"\xfc\x01"] = b"out"
+
+        def edit_psbt(x):
+            x.extra_map[b"\xfc\x02g"] = b"global"
+            x.hd_pubs[b"k"] = forged_xpub(w)
+            edit_in(x.psbt_ins[0])
+            edit_out(x.psbt_outs[0])
+        blank_psbt = lambda t: [un_tx(t), [list(BLANK_IN)] * len(t.tx_ins), [list(BLANK_OUT)] * len(t.tx_outs), [], []]  # noqa: E731
+        for name, make, edit, un, blank in (
+                ("PSBTIn(tx_in)", lambda: PSBTIn(mk_ti(0)), edit_in, un_in, lambda o: list(BLANK_IN)),
+                ("PSBTOut(tx_out)", lambda: PSBTOut(mk_to()), edit_out, un_out, lambda o: list(BLANK_OUT)),
+                ("PSBT(tx, ins, outs)",
+                 lambda: (lambda t: PSBT(t, [PSBTIn(i) for i in t.tx_ins], [PSBTOut(o) for o in t.tx_outs]))(
+                     Tx(2, [mk_ti(0), mk_ti(1)], [mk_to(), mk_to()], 0)), edit_psbt, un_psbt, lambda o: blank_psbt(o.tx_obj)),
+                ("PSBT.create(tx)", lambda: PSBT.create(Tx(2, [mk_ti(0), mk_ti(1)], [mk_to(), mk_to()], 0)), edit_psbt,
+                 un_psbt, lambda o: blank_psbt(o.tx_obj))):
+            try:
+                x, y = make(), make()
+                if un(x) != blank(x):
+                    return f"{name} with the optional arguments left out is not blank"
+                edit(x)
+                z = make()
+            except Exception as e:  # noqa
+                return f"{name} with the optional arguments left out: {type(e).__name__}: {str(e)[:100]}"
+            for which, o in (("made before", y), ("made after", z)):
+                if un(o) != blank(o):
+                    return f"editing one {name} in place changed another one ({which} the edit)"
+            if un(x) == blank(x):
+                return f"harness: the edits of {name} are not visible"
+        # ---- two extractions from one finalised PSBT (legacy + segwit input)
+        if kind_i in (0, 3):
+            wl_ = [w, own_wallets()["p2wpkh"]]
+            fs = [funding_tx(75 + kind_i + i, i, x.spk) for i, x in enumerate(wl_)]
+            tx = Tx(2, [TxIn(x.hash(), 1) for x in fs], [TxOut(90000, w.spk)], 0)
+            tx.network = "mainnet"
+            pk, rl, wl = merged_lookups(wl_)
+            p = PSBT.create(tx, tx_lookup={x.hash(): x for x in fs}, pubkey_lookup=pk, redeem_lookup=rl, witness_lookup=wl)
+            if not p.sign_with_private_keys(w.privs[:w.m] + wl_[1].privs):
+                return "nothing signed"
+            p.finalize()
+            fb = p.serialize()
+            t1 = p.final_tx()
+            txb = t1.serialize()
+            # (the final scriptSig / witness OBJECTS of the PSBT are handed out by final_tx(); they are replaced
+            # here, not edited: see the report of the audit)
+            t1.tx_ins[0].witness.items.append(b"\x01")
+            t1.tx_ins[1].witness = Witness([b"\x02"])
+            t1.tx_ins[0].script_sig = Script([b"\x03"])
+            t1.tx_ins[1].script_sig = Script([b"\x04"])
+            t1.tx_ins[0].prev_index = 7
+            t1.tx_outs[0].amount += 1
+            t1.tx_outs.append(TxOut(1, w.spk))
+            if p.serialize() != fb:
+                return "editing the extracted transaction changed the PSBT it was extracted from"
+            t2 = p.final_tx()
+            if t2.serialize() != txb:
+                return "editing the first extracted transaction changed the result of the next final_tx()"
+            if len(t2.tx_ins[0].witness.items) != 0:
+                return "the legacy input of the extracted transaction has a non-empty witness"
+            if reparse(fb).final_tx().serialize() != txb:
+                return "final_tx() of the reloaded finalised PSBT differs"
+    return None
+
+
+def p_parse_network(kind_i, hd):
+    """PSBT.parse / parse_base64 with the network argument GIVEN (mainnet / testnet / signet; paths name mainnet):
+    the bytes written back are the bytes read (no global xpubs: nothing in a PSBT encodes the network), the PSBT,
+    its transaction and every derivation carry the given network, and the workflow still extracts the same
+    transaction.  hd=1: global xpubs present, network given = network of the paths."""
+    w = Wallet(KINDS[kind_i], 2, 2, first_key=6, hd=True) if hd else own_wallets()[KINDS[kind_i]]
+    with contextlib.redirect_stdout(io.StringIO()):
+        b = build_psbt(w, 2, salt=35 + kind_i, extras=True).serialize()
+        ref_p = reparse(b)
+        for net in (("mainnet",) if hd else ("mainnet", "testnet", "signet")):
+            for how in ("bytes", "base64"):
+                try:
+                    p = PSBT.parse(BytesIO(b), network=net) if how == "bytes" else \
+                        PSBT.parse_base64(base64.b64encode(b).decode("ascii"), network=net)
+                except Exception as e:  # noqa
+                    return f"parse ({how}) with network={net} refuses a PSBT that loads by default: {type(e).__name__}: {str(e)[:80]}"
+                if p.serialize() != b:
+                    return f"parse ({how}) with network={net}: the PSBT re-serialises differently"
+                nets = {p.network, p.tx_obj.network} | {n_.network for m_ in p.psbt_ins + p.psbt_outs
+                                                         for n_ in m_.named_pubs.values()} | \
+                    {h.network for h in p.hd_pubs.values()}
+                if nets != {net}:
+                    return f"parse ({how}) with network={net}: the loaded objects carry the networks {sorted(map(str, nets))}"
+                if un_psbt(p) != un_psbt(ref_p):
+                    return f"parse ({how}) with network={net} gives other fields than the default"
+        # the workflow on an object loaded with an explicit network
+        if not hd:
+            single = w.kind in SINGLE
+            p = PSBT.parse(BytesIO(b), network="testnet")
+            if not p.sign_with_private_keys(w.privs[: (1 if single else w.m)]):
+                return "nothing signed"
+            sb_ = p.serialize()
+            if sb_ != sign_keys(b, w.privs[: (1 if single else w.m)])[1]:
+                return "signing a PSBT loaded with network=testnet gives other bytes than signing the default load"
+            p.finalize()
+            t = p.final_tx()
+            if t.network != "testnet" or t.serialize() != finalise_bytes(sb_)[1]:
+                return "extraction from a PSBT loaded with network=testnet: other transaction or other network"
+    return None
+
+
+def p_dup_script_key(kind_i, m):
+    """an m-of-2 script that names the SAME key in both slots: the signed PSBT the library writes must load again"""
+    kind = KINDS[kind_i]
+    w = Wallet(kind, m, 2, first_key=3)
+    scr = [op_n(m), w.secs[0], w.secs[0], op_n(2), 174]
+    if kind == "p2sh":
+        w.redeem = RedeemScript(scr)
+        w.spk = w.redeem.script_pubkey()
+    else:
+        w.wscript = WitnessScript(scr)
+        if kind == "p2sh-p2wsh":
+            w.redeem = RedeemScript([0, w.wscript.sha256()])
+            w.spk = w.redeem.script_pubkey()
+        else:
+            w.spk = w.wscript.script_pubkey()
+    w.named, w.privs, w.secs = w.named[:1], w.privs[:1], w.secs[:1]
+    with contextlib.redirect_stdout(io.StringIO()):
+        p = build_psbt(w, 1, salt=7)
+        if not p.sign_with_private_keys(w.privs):
+            return "nothing signed"
+        return p_reserialize_strict(p.serialize())
+
+
+def p_validate_retry(kind_i):
+    """validate() that refused a wrong final scriptSig / witness leaves the PSBT usable: after the right final
+    fields are put back, validate() accepts and serialize() writes the bytes of the valid PSBT"""
+    w = own_wallets()[KINDS[kind_i]]
+    with contextlib.redirect_stdout(io.StringIO()):
+        base = build_psbt(w, 1, salt=37).serialize()
+        single = w.kind in SINGLE
+        fb = finalise_bytes(sign_keys(base, w.privs[: (1 if single else w.m)])[1])[0]
+        q = reparse(fb)
+        pin = q.psbt_ins[0]
+        good = (pin.script_sig, pin.witness)
+        at = 0 if single else 1                 # multisig: position 0 is the dummy element
+        if pin.witness:
+            it = list(pin.witness.items)
+            pin.witness = Witness(it[:at] + [FAKE_SIG] + it[at + 1:])
+        else:
+            it = list(pin.script_sig.commands)
+            pin.script_sig = Script(it[:at] + [FAKE_SIG] + it[at + 1:])
+        try:
+            q.validate()
+        except ValueError:
+            pass
+        else:
+            return "validate() accepted a final scriptSig / witness that does not verify"
+        pin.script_sig, pin.witness = good
+        try:
+            q.validate()
+        except Exception as e:  # noqa
+            return f"after a refused validate() the repaired PSBT is refused as well: {type(e).__name__}: {str(e)[:80]}"
+        if q.serialize() != fb:
+            return "after a refused validate() the repaired PSBT serialises differently from the valid PSBT"
+    return None
+
+
+def entry_point_cases(ctx):
+    """hand-built encodings for field coincidences and lenient length handling; the model decides"""
+    ws = own_wallets()
+    w = ws["p2wsh"]
+    f = funding_tx(120, 0, w.spk)
+    # (c) no inputs / no outputs
+    for t in (Tx(2, [], [TxOut(5, w.spk)], 0), Tx(2, [TxIn(f.hash(), 1)], [], 0), Tx(2, [], [], 0)):
+        b = join_maps([[(b"\x00", t.serialize_legacy())]] + [[] for _ in t.tx_ins + t.tx_outs])
+        ctx.label("coincidence/empty-input-or-output-list")
+        yield parse_case(b)
+        yield ("prop", "reserialize", [b])
+    # (c) both UTXO forms in one input map (written, parsed), prev_index beyond the previous transaction's outputs
+    for kind in ("p2sh", "p2wsh", "p2sh-p2wpkh"):
+        x = ws[kind]
+        fx = funding_tx(121, 0, x.spk)
+        v = ref_in(x, fx, 1)
+        v[0], v[1] = [un_tx(fx)], [un_txout(fx.tx_outs[1])]
+        ctx.label("coincidence/both-utxo-forms")
+        yield ("corr", "in_serialize", [v])
+        yield ("corr", "in_validate", [v, un_txin(TxIn(fx.hash(), 1))])
+        e = lambda k, val: encode_varstr(k) + encode_varstr(val)  # noqa: E731
+        for idx in (1, 2, 0xFFFFFFFF):
+            for ents in ([(b"\x00", fx.serialize()), (b"\x01", fx.tx_outs[1].serialize())],
+                         [(b"\x01", fx.tx_outs[1].serialize()), (b"\x00", fx.serialize())], [(b"\x00", fx.serialize())]):
+                yield ("corr", "in_parse", [b"".join(e(k, val) for k, val in ents) + b"\x00\xee", un_txin(TxIn(fx.hash(), idx)), 0])
+    # (c)/(d) derivation fingerprints and indices of one byte class
+    sec = w.secs[0]
+    for fp in (b"\x00" * 4, b"\xff" * 4):
+        for idxs in ((0,), (0xFFFFFFFF,), (0x7FFFFFFF, 0x80000000), (H32 + 44, H32 + 1, 0xFFFFFFFF)):
+            path = fp + b"".join(_le4(i) for i in idxs)
+            ctx.label("byte-class/derivation-fingerprint-and-index")
+            yield ("corr", "in_parse", [encode_varstr(b"\x06" + sec) + encode_varstr(path) + b"\x00", un_txin(TxIn(b"\x33" * 32, 0)), 0])
+            yield ("corr", "out_parse", [encode_varstr(b"\x02" + sec) + encode_varstr(path) + b"\x00",
+                                         un_txout(TxOut(5, Script([81]))), 0])
+    # (c) global xpubs: same key twice with different paths, keys that differ in the version bytes only, depth 0
+    # with a parent fingerprint / child number, all-zero and all-ff chain codes
+    tx = Tx(2, [TxIn(f.hash(), 1)], [TxOut(100, w.spk)], 0)
+    g0 = [(b"\x00", tx.serialize_legacy())]
+    im = [(b"\x01", f.tx_outs[1].serialize())]
+    fp = b"\xaa\xbb\xcc\xdd"
+    main = fp + _le4(H32 + 48) + _le4(H32)
+    k, v = xpub_entry(XPUB_MAIN, 2, sec, main)
+    kt, _ = xpub_entry(XPUB_TEST, 2, sec, main)
+    for extra in ([(k, v), (k, b"\x11\x22\x33\x44" + main[4:])], [(k, v), (kt, v)], [(kt, v), (k, v)],
+                  [xpub_entry(XPUB_MAIN, 0, sec, fp, parent=b"\x01\x02\x03\x04")],
+                  [xpub_entry(XPUB_MAIN, 0, sec, fp, child=5)], [xpub_entry(XPUB_MAIN, 1, sec, fp + _le4(7), child=8)],
+                  [xpub_entry(XPUB_MAIN, 2, sec, main, chain=b"\x00" * 32)], [xpub_entry(XPUB_MAIN, 2, sec, main, chain=b"\xff" * 32)],
+                  [xpub_entry(XPUB_MAIN, 2, sec, b"\x00" * 4 + main[4:], parent=b"\xff" * 4, child=0xFFFFFFFF)]):
+        b = join_maps([g0 + extra, im, []])
+        ctx.label("coincidence/global-xpub-fields")
+        yield parse_case(b)
+        yield ("prop", "reserialize", [b])
+    # (e) declared lengths the parser does not need (unsigned transaction, final witness) or reads in a longer
+    # compact-size form than necessary
+    raw = tx.serialize_legacy()
+    wit = b"\x02\x01\xaa\x00"
+    cs = lambda n: [encode_varint(n), b"\xfd" + n.to_bytes(2, "little"), b"\xfe" + n.to_bytes(4, "little"),  # noqa: E731
+                    b"\xff" + n.to_bytes(8, "little")]
+    for ln in cs(len(raw)) + [encode_varint(len(raw) - 1), encode_varint(len(raw) + 1), b"\x00"]:
+        b = b"psbt\xff\x01\x00" + ln + raw + b"\x00" + join_maps([im, []])[5:]
+        ctx.label("lenient/unsigned-tx-length")
+        yield parse_case(b)
+        yield ("prop", "reserialize", [b])
+    for ln in cs(len(wit)) + [b"\x03", b"\x05", b"\x00"]:
+        yield ("corr", "in_parse", [encode_varstr(b"\x01") + encode_varstr(f.tx_outs[1].serialize()) + b"\x01\x08" + ln + wit + b"\x00\xee",
+                                    un_txin(TxIn(f.hash(), 1)), 0])
+    for ln in cs(1)[1:]:
+        ctx.label("lenient/compact-size-forms")
+        yield parse_case(b"psbt\xff" + ln + b"\x00" + encode_varstr(raw) + b"\x00" + join_maps([im, []])[5:])
+        yield ("corr", "in_parse", [ln + b"\x01" + encode_varstr(f.tx_outs[1].serialize()) + b"\x00", un_txin(TxIn(f.hash(), 1)), 0])
+        yield ("corr", "kv_parse", [ln + b"\x0f" + ln + b"v" + b"\x00"])
+
+
+
 PROPS = {"workflow": p_workflow, "reuse_workflow": p_reuse_workflow, "stage_orders": p_stage_orders,
          "inmem_p2sh_p2wpkh": p_inmem_p2sh_p2wpkh, "reserialize": p_reserialize, "segwit_flag": p_segwit_flag,
          "scriptsig_rejected": p_scriptsig_rejected, "bad_sig": p_bad_sig,
@@ -2342,13 +2901,35 @@ PROPS = {"workflow": p_workflow, "reuse_workflow": p_reuse_workflow, "stage_orde
          "mixed_wallets": p_mixed_wallets, "finalize_errors": p_finalize_errors,
          "create_from_final": p_create_from_final, "finalised_pairs": p_finalised_pairs,
          "extract_invalid": p_extract_invalid, "digest_choice": p_digest_choice,
-         "stream_position": p_stream_position}
+         "stream_position": p_stream_position,
+         "lookup_producers": p_lookup_producers, "xfp_helpers": p_xfp_helpers, "default_objects": p_default_objects,
+         "parse_network": p_parse_network, "dup_script_key": p_dup_script_key, "validate_retry": p_validate_retry}
+
+
+def known_keys():
+    """keys of the `known` entries of KNOWN_FINDINGS.json / findings/C10.json: cases that are instances of a defect
+    which is not (yet) recorded there are not generated (they are reported to the lead instead)"""
+    import json
+    root = os.path.dirname(os.path.dirname(os.path.dirname(os.path.abspath(__file__))))
+    keys = set()
+    for fn in ("KNOWN_FINDINGS.json", os.path.join("findings", "C10.json")):
+        try:
+            for f in json.load(open(os.path.join(root, fn))).get("findings", []):
+                if f.get("property") == "C10" and f.get("status") == "known":
+                    keys.add(f["key"])
+        except (OSError, ValueError):
+            pass
+    return keys
 
 
 def classify(v):
     if v["kind"] != "prop":
         return None
     d = v.get("detail", "") or ""
+    if v["name"] == "dup_script_key" and "Duplicate Key in parsing" in d:
+        return "K-C10-duplicate-script-key"
+    if v["name"] == "validate_retry" and "repaired PSBT" in d:
+        return "K-C10-validate-leaves-scriptsig"
     if v["name"] == "xpub_order" and "differs from serialize" in d:
         return "K-C10-xpub-network-order"
     return None
@@ -2697,6 +3278,29 @@ def generate(ctx):
     for kind_i in ((0, 1, 5) if quick else range(6)):
         ctx.label("create-from-signed-tx")
         yield ("prop", "create_from_final", [kind_i])
+    # ---- entry points next to the main path, optional arguments left out, keys that differ per input, shared state
+    for flags in (0, 1):
+        ctx.label("entry-points/lookup-producers+update-defaults+sign(hd)-per-input-keys")
+        yield ("prop", "lookup_producers", [flags])
+    for g in ((2, 1), (1, 0)):
+        ctx.label("entry-points/replace_root_xfps+remove_global_xpubs")
+        yield ("prop", "xfp_helpers", list(g))
+    for kind_i in range(6):
+        ctx.label("default-arguments/constructors-left-blank")
+        yield ("prop", "default_objects", [kind_i])
+    for kind_i, hd in ((0, 0), (2, 0), (3, 0), (4, 0), (4, 1)) if quick else \
+            [(k, 0) for k in range(6)] + [(3, 1), (4, 1), (5, 1)]:
+        ctx.label("entry-points/parse-with-network-argument")
+        yield ("prop", "parse_network", [kind_i, hd])
+    known = known_keys()
+    if "K-C10-duplicate-script-key" in known:
+        for kind_i, m in ((3, 2), (4, 1), (5, 2)):
+            yield ("prop", "dup_script_key", [kind_i, m])
+    for kind_i in range(6):
+        if kind_i in (1, 4) or "K-C10-validate-leaves-scriptsig" in known:
+            ctx.label("retry-after-refusal/validate")
+            yield ("prop", "validate_retry", [kind_i])
+    yield from entry_point_cases(ctx)
     # ---- every way an input cannot be finalised
     for kind_i in range(6):
         for (m, n) in ([(1, 1)] if kind_i < 3 else [(1, 1), (1, 2), (2, 2), (2, 3), (3, 3)]):
